@@ -1,5 +1,6 @@
 """C10 — damaged or truncated input is rejected, never returned as a partial molecule (XH, [selector-bound] in the damage position)."""
-import os, io
+import os, io, warnings
+warnings.filterwarnings("ignore")
 import numpy as np
 from molli.chem import Atom, Molecule, Structure, CartesianGeometry, ConformerEnsemble
 
@@ -20,7 +21,12 @@ def _mk():
 A, B = _mk()
 MOL2 = A.dumps_mol2() + B.dumps_mol2()
 XYZ = A.dumps_xyz() + B.dumps_xyz()
-TEXTS = {"mol2": MOL2, "xyz": XYZ}
+# the same two molecules with record types molli does not interpret (skipped blocks) before ATOM, between ATOM and BOND, and after BOND
+_a, _b = A.dumps_mol2(), B.dumps_mol2()
+MOL2X = (_a.replace("@<TRIPOS>ATOM", "@<TRIPOS>COMMENT\nmade by hand\n@<TRIPOS>ATOM") +
+         _b.replace("@<TRIPOS>BOND", "@<TRIPOS>SUBSTRUCTURE\n     1 UNL1        1 GROUP\n@<TRIPOS>BOND") + "@<TRIPOS>CRYSIN\n1.0 1.0 1.0 90 90 90 1 1\n")
+TEXTS = {"mol2": MOL2, "xyz": XYZ, "mol2x": MOL2X}
+FMTS = ["mol2", "xyz", "mol2x"]
 
 
 class BudgetExceeded(Exception):
@@ -43,7 +49,7 @@ class RStream(io.StringIO):
 
 def parse(fmt, text):
     s = RStream(text)
-    if fmt == "mol2":
+    if fmt.startswith("mol2"):
         return list(Molecule.yield_from_mol2(s))
     return list(Molecule.yield_from_xyz(s))
 
@@ -51,14 +57,14 @@ def parse(fmt, text):
 def sig(m, fmt):
     """content of a molecule as far as the format carries it"""
     d = {"n": m.n_atoms, "els": [int(a.element) for a in m.atoms], "xyz": np.round(np.asarray(m.coords, dtype=float), 6).tolist()}
-    if fmt == "mol2":
+    if fmt.startswith("mol2"):
         d.update(name=m.name, labels=[a.label for a in m.atoms], bonds=[(m.atoms.index(b.a1), m.atoms.index(b.a2), int(b.btype)) for b in m.bonds],
                  q=np.round(np.asarray(m.atomic_charges, dtype=float), 3).tolist())
     return d
 
 
 REF = {f: [sig(m, f) for m in parse(f, TEXTS[f])] for f in TEXTS}
-HEADER_COUNTS = {"mol2": [(2, 1), (3, 2)], "xyz": [(2, 0), (3, 0)]}
+HEADER_COUNTS = {"mol2": [(2, 1), (3, 2)], "xyz": [(2, 0), (3, 0)], "mol2x": [(2, 1), (3, 2)]}
 
 
 def judge(fmt, text, content=True):
@@ -73,7 +79,7 @@ def judge(fmt, text, content=True):
         return False
     for k, m in enumerate(res):
         na, nb = HEADER_COUNTS[fmt][k]
-        if m.n_atoms != na or (fmt == "mol2" and m.n_bonds != nb):
+        if m.n_atoms != na or (fmt.startswith("mol2") and m.n_bonds != nb):
             return False                      # a molecule with fewer/more atoms or bonds than its own header declares
         if content and sig(m, fmt) != REF[fmt][k]:
             return False
@@ -98,11 +104,11 @@ def pick(sel, n):
 def h_truncate(fmt_sel: int, cut: int) -> bool:
     """
     every truncation point (all byte offsets) of the generated 2-molecule mol2 and 2-frame xyz text
-    pre: 0 <= fmt_sel <= 1 and 0 <= cut <= 700
+    pre: 0 <= fmt_sel <= 2 and 0 <= cut <= 900
     pre: SPLIT < 0 or cut % NSPLIT == SPLIT
     post: _
     """
-    fmt = ["mol2", "xyz"][pick(fmt_sel, 2)]
+    fmt = FMTS[pick(fmt_sel, 3)]
     text = TEXTS[fmt]
     c = pick(cut, len(text) + 1)
     if c is None:
@@ -114,11 +120,11 @@ def h_truncate(fmt_sel: int, cut: int) -> bool:
 def h_line_damage(fmt_sel: int, line: int, kind: int) -> bool:
     """
     single line deleted / duplicated
-    pre: 0 <= fmt_sel <= 1 and 0 <= line <= 40 and 0 <= kind <= 1
+    pre: 0 <= fmt_sel <= 2 and 0 <= line <= 50 and 0 <= kind <= 1
     pre: SPLIT < 0 or line % NSPLIT == SPLIT
     post: _
     """
-    fmt = ["mol2", "xyz"][pick(fmt_sel, 2)]
+    fmt = FMTS[pick(fmt_sel, 3)]
     lines = TEXTS[fmt].splitlines(keepends=True)
     i = pick(line, len(lines))
     k = pick(kind, 3)
@@ -164,11 +170,11 @@ def judge_relaxed(fmt, text):
 def h_token_damage(fmt_sel: int, line: int, tok: int, kind: int) -> bool:
     """
     one token corrupted: an integer field +1 / -1, a numeric field replaced by 'x', a token dropped
-    pre: 0 <= fmt_sel <= 1 and 0 <= line <= 40 and 0 <= tok <= 9 and 0 <= kind <= 3
+    pre: 0 <= fmt_sel <= 2 and 0 <= line <= 50 and 0 <= tok <= 9 and 0 <= kind <= 3
     pre: SPLIT < 0 or line % NSPLIT == SPLIT
     post: _
     """
-    fmt = ["mol2", "xyz"][pick(fmt_sel, 2)]
+    fmt = FMTS[pick(fmt_sel, 3)]
     lines = TEXTS[fmt].splitlines(keepends=True)
     i, t, k = pick(line, len(lines)), pick(tok, 10), pick(kind, 4)
     if i is None:
@@ -201,7 +207,7 @@ def _line_map(fmt):
     """line index -> (molecule, section, record index) of the generated text"""
     out, mol, sec, rec = {}, -1, None, 0
     lines = TEXTS[fmt].splitlines()
-    if fmt == "mol2":
+    if fmt.startswith("mol2"):
         for i, l in enumerate(lines):
             if l.startswith("@<TRIPOS>"):
                 sec, rec = l[9:], 0
@@ -255,9 +261,9 @@ def judge_record(fmt, text, line):
                 continue
             if got["els"][i] != ref["els"][i] or got["xyz"][i] != ref["xyz"][i]:
                 return False
-            if fmt == "mol2" and (got["labels"][i] != ref["labels"][i] or got["q"][i] != ref["q"][i]):
+            if fmt.startswith("mol2") and (got["labels"][i] != ref["labels"][i] or got["q"][i] != ref["q"][i]):
                 return False
-        if fmt == "mol2":
+        if fmt.startswith("mol2"):
             if got["name"] != ref["name"] or len(got["bonds"]) != len(ref["bonds"]):
                 return False
             for j in range(len(ref["bonds"])):
@@ -272,7 +278,7 @@ def judge_counts_and_refs(fmt, text):
     reader, so content is compared only for atom and bond *counts* against what each molecule's own header declares"""
     try:
         s = RStream(text)
-        if fmt == "mol2":
+        if fmt.startswith("mol2"):
             from molli.parsing.mol2 import read_mol2
             blocks = list(read_mol2(RStream(text)))
             res = list(Molecule.yield_from_mol2(s))
